@@ -53,7 +53,7 @@ def step (s : St) (toks : List String) : St × List String :=
       match execute (getRep s r) op with
       | .ok d' => (setRep s r d', ["ok"])
       | .error e => (s, [showErr e])
-  | ["M", r] => (s, [marshal (getRep s r) 64 rootId])
+  | ["M", r] => (s, [marshalV (getRep s r) 64 [] rootId])
   | _ => (s, ["bad-op"])
 
 def engine : Engine := { State := St, init := {}, step := step }
